@@ -44,7 +44,7 @@ def end_probes(nrf, chip, air, seq, lite):
         txd = any(n == chip.name and p == 0 for (n, p, how) in rx2)
         ev.append(dict(k="probe_rx", delivered=delivered, tx_delivered=txd, aw=aw, txa=st["txa"],
                        target=list(target[:aw]) if target is not None else []))
-    if in_tx and (st["aa"] & 1) and seq and seq[-1][0] == "open_tx_pipe":
+    if in_tx and not lite and (st["aa"] & 1) and seq and seq[-1][0] == "open_tx_pipe":
         peer = sim.Chip(air, "peer")
         peer.r[0] = 0x0B | (st["c"] & 0x0C)
         peer.r[1], peer.r[2], peer.r[3], peer.r[5], peer.r[6] = 0x3F, 0x02, st["aw"], st["ch"], st["rf"]
